@@ -249,6 +249,7 @@ class Snapping(LaplaceTruncated):
 
         """
         self._check_all(value)
+        value = float(value)  # a numpy float32/float16 input would otherwise have the sum taken in its own type
         if self.sensitivity == 0:
             return super()._truncate(value)  # truncate to [lower, upper], not to the centred bound
 
